@@ -63,6 +63,34 @@ char *strcat(char *d, const char *s)
     }
     return d;
 }
+/* byte-loop block functions: with constant block capacities and unrolled loops every access has a
+ * constant index, so blocks stay field-sensitive bit-vectors (cbmc's own memcpy/memset models copy through
+ * variable-length arrays, i.e. the array theory, when the length is symbolic) */
+#ifdef VERIF_SPLIT_OWN_MEM
+void *memcpy(void *d, const void *s, size_t n)
+{
+    size_t i;
+    for (i = 0; i < n; i++) ((char *) d)[i] = ((const char *) s)[i];
+    return d;
+}
+void *memmove(void *d, const void *s, size_t n)
+{
+    size_t i;
+    if ((char *) d <= (const char *) s) {
+        for (i = 0; i < n; i++) ((char *) d)[i] = ((const char *) s)[i];
+    } else {
+        for (i = n; i > 0; i--) ((char *) d)[i - 1] = ((const char *) s)[i - 1];
+    }
+    return d;
+}
+void *memset(void *d, int c, size_t n)
+{
+    size_t i;
+    for (i = 0; i < n; i++) ((char *) d)[i] = (char) c;
+    return d;
+}
+#endif
+
 /* malloc/realloc for the bounded units ("fat blocks with a ghost canary").
  * cbmc's own malloc gives a block whose size is a symbolic expression whenever the requested size
  * depends on the input (strlen(pstr)+1 ...); such blocks are encoded with the array theory and the B
@@ -76,7 +104,9 @@ char *strcat(char *d, const char *s)
  *     The check runs in realloc (on the old block) and wherever the harness calls it (returned blocks).
  * Not seen by this model: READS between the requested size and VS_FAT inside a block the code owns, and
  * writes further than VS_FAT - n bytes beyond a block are reported as plain out-of-bounds accesses. */
-#define VS_FAT 64
+#ifndef VS_FAT
+# define VS_FAT 64               /* block capacity; a unit may choose a smaller one */
+#endif
 #define VS_CANARY 0x5A
 #ifndef VS_OBJS
 # define VS_OBJS 256              /* 2^object-bits of the unit */
